@@ -355,6 +355,21 @@ Fixpoint apply_at (f : scope -> op -> option (list op)) (path : list nat) (Sc : 
 Definition rewrite (r : rule) (path : list nat) (b : list op) : option (list op) :=
   apply_at (fun Sc o => apply_rule r Sc (S (maxvar b)) o) path [] b.
 
+(* the same with fresh names above the free names `args` as well (they need not occur in b) *)
+Definition fresh_for (args : list var) (b : list op) : var :=
+  S (Nat.max (fold_right Nat.max 0%nat args) (maxvar b)).
+Definition rewrite_in (args : list var) (r : rule) (path : list nat) (b : list op) : option (list op) :=
+  apply_at (fun Sc o => apply_rule r Sc (fresh_for args b) o) path [] b.
+Fixpoint rewrite_seq_in (args : list var) (steps : list (rule * list nat)) (b : list op) : option (list op) :=
+  match steps with
+  | [] => Some b
+  | (r, path) :: rest =>
+    match rewrite_in args r path b with
+    | Some b' => rewrite_seq_in args rest b'
+    | None => None
+    end
+  end.
+
 (* ---------------------------------------------------------------- equality / canonical renumbering (L1) *)
 Definition binop_eqb (a b : binop) : bool :=
   match a, b with
